@@ -7,7 +7,8 @@
 From Coq Require Import List ZArith Bool Arith.
 From FB Require Import Model.Exec Model.TraceSpec Model.ExecInv.
 From FB Require Import Model.Settle.
-From FB Require Proofs.ExecCount Proofs.ExecProps Proofs.ExecSpec Proofs.ExecTerminal Proofs.FlattenProofs.
+From FB Require Import Model.Play.
+From FB Require Proofs.ExecCount Proofs.ExecProps Proofs.ExecSpec Proofs.ExecTerminal Proofs.FlattenProofs Proofs.PlayProofs.
 Import ListNotations.
 
 (* the global conservation law (no hypothesis on the network): for every channel c and item x, what the
@@ -85,6 +86,18 @@ Theorem C01_roots_are_enabled_roots : forall roots,
   map (fun r => nid (info (flatten roots) r)) (Exec.roots (flatten roots)) = FlattenProofs.enabled_ids roots.
 Proof. exact FlattenProofs.flatten_roots. Qed.
 
+
+(* ---- the lockstep correspondence compares the implementation with REACHABLE, QUIESCENT states ----
+   [play_from_init] (Model/Play.v) is what predicts, command by command, the snapshot the implementation must
+   show; every state it passes through is reached by a schedule of the model (so every theorem for [reachable]
+   applies to every predicted snapshot), and each is quiescent (no internal action enabled). *)
+Theorem C01_predicted_states_reachable : forall nt T l,
+  reachable nt T (st (fst (fst (play_from_init nt T l)))).
+Proof. exact PlayProofs.play_from_init_reachable. Qed.
+Theorem C01_predicted_states_quiescent : forall fuel nt T s s',
+  settle fuel nt T s = SOk s' -> forall a, In a (candidates nt s') -> step nt T s' a = NotEnabled.
+Proof. exact PlayProofs.settle_quiescent. Qed.
+
 Print Assumptions C01_conservation_law.
 Print Assumptions C01_channel_conservation.
 Print Assumptions C01_offered_is_buffered_or_handed_over.
@@ -98,3 +111,5 @@ Print Assumptions C01_spec_sound.
 Print Assumptions C01_disabled_never_exist.
 Print Assumptions C01_table_well_formed.
 Print Assumptions C01_roots_are_enabled_roots.
+Print Assumptions C01_predicted_states_reachable.
+Print Assumptions C01_predicted_states_quiescent.
